@@ -65,6 +65,8 @@ def make_jobs(tier, seed, want):
     for gen, r, c in ([("gen_percolation", 2, 4), ("gen_dfs_percolation", 2, 3)] if q else
                       [("gen_percolation", 3, 3), ("gen_percolation", 3, 4), ("gen_dfs_percolation", 3, 3)]):
         for kw in ([dict(), dict(p=0), dict(p=1)] if gen == "gen_percolation" else [dict(), dict(p=0.5, accessible_cells=3)]):
+            if "c12" in want and gen == "gen_percolation" and r * c > 9 and not kw:
+                continue  # the component search over 17 free bits did not finish within the 55-minute instance budget (C12 only; C01 keeps it)
             if gen == "gen_dfs_percolation" and r * c == 9:
                 for a in range(2):
                     for b in range(2):
